@@ -50,3 +50,179 @@ Example C06_example :
            {| tk := Comment [233]; ts := 9; te := 13; terr := [] |};
            {| tk := Eof; ts := 13; te := 13; terr := [] |} ].
 Proof. vm_compute. reflexivity. Qed.
+
+(* ------------------------------------------------------------------------------------------ *)
+(* CONFORMANCE with the SPL lexical grammar (Spec/LexSpec.v: `Lexeme k lx` = the character sequence lx is
+   a lexeme of kind and value k; `Delimited k lx rest` = what follows does not extend it), for ALL inputs.
+   Proofs in Proofs/LexConformOne.v (one token) and Proofs/LexConform.v (whole texts). *)
+From Spl Require Import Proofs.LexLocality Proofs.LexRun Proofs.LexConformOne Proofs.LexConform.
+
+(* one token: on a delimited lexeme the lexer returns exactly this lexeme, with its kind and value, no
+   lexical error, and leaves the rest untouched (lexres = kind, errors, lexeme, rest).  This is longest
+   match, keywords only as whole words, literal values and comment extent in one statement. *)
+Theorem C06_conformance_one : forall k lx rest,
+  Lexeme k lx -> Delimited k lx rest -> lex_raw (lx ++ rest) = Some (k, [], lx, rest).
+Proof. exact lex_raw_lexeme. Qed.
+Print Assumptions C06_conformance_one.
+
+(* whole texts: lexemes ls = [(k1,lx1); ...] woven with whitespace separators seps = [s0; ...; sn]
+   (s0 lx1 s1 lx2 ... lxn sn; separators may be empty), every lexeme delimited by what follows it in the
+   text (`follow`: the next separator if it is not empty, else the next lexeme): the lexer returns exactly
+   these lexemes - kinds and values, no lexical error, token i at the byte offset of everything woven in
+   front of lexeme i and as wide as lexeme i, and one Eof of width 0 at the end of the text. *)
+Theorem C06_conformance : forall (ls : list (kind * text)) (seps : list text),
+  length seps = S (length ls) ->
+  Forall (fun s => forallb is_ws s = true) seps ->
+  Forall (fun kl => Lexeme (fst kl) (snd kl)) ls ->
+  SeparatedOK ls seps ->
+  exists toks,
+    lex (weave seps (map snd ls)) = Some toks /\
+    map tk toks = map fst ls ++ [Eof] /\
+    Forall (fun t => terr t = []) toks /\
+    (forall i kl, nth_error ls i = Some kl ->
+       exists t suffix,
+         nth_error toks i = Some t /\ tk t = fst kl /\
+         ts t = blen (weave (firstn (S i) seps) (firstn i (map snd ls))) /\
+         te t = ts t + blen (snd kl) /\
+         weave seps (map snd ls) = weave (firstn (S i) seps) (firstn i (map snd ls)) ++ snd kl ++ suffix) /\
+    nth_error toks (length ls) = Some (eof_token (blen (weave seps (map snd ls)))).
+Proof. exact conformance. Qed.
+Print Assumptions C06_conformance.
+
+(* the same as one equation: the token vector is `place 0 seps ls` *)
+Theorem C06_conformance_place : forall ls seps,
+  length seps = S (length ls) ->
+  Forall (fun s => forallb is_ws s = true) seps ->
+  Forall (fun kl => Lexeme (fst kl) (snd kl)) ls ->
+  SeparatedOK ls seps ->
+  lex (weave seps (map snd ls)) = Some (place 0 seps ls).
+Proof. exact conformance_place. Qed.
+Print Assumptions C06_conformance_place.
+
+(* a purely syntactic sufficient condition: if every separator behind a lexeme is NON-EMPTY whitespace
+   (and every comment lexeme is written with its closing line feed), any sequence of lexemes is separated *)
+Theorem C06_conformance_nonempty_seps : forall ls seps,
+  length seps = S (length ls) ->
+  Forall (fun s => forallb is_ws s = true) seps ->
+  Forall (fun s => s <> []) (tl seps) ->
+  Forall (fun kl => Lexeme (fst kl) (snd kl)) ls ->
+  Forall (fun kl => closed_comment (fst kl) (snd kl)) ls ->
+  lex (weave seps (map snd ls)) = Some (place 0 seps ls) /\
+  map tk (place 0 seps ls) = map fst ls ++ [Eof].
+Proof. exact conformance_nonempty_seps. Qed.
+Print Assumptions C06_conformance_nonempty_seps.
+
+(* keywords only as whole words: a keyword spelling followed by the end of the text or by a character that
+   is not a letter, digit or '_' is the keyword; followed by letters, digits or '_' the whole word is ONE
+   identifier (never keyword + identifier) *)
+Theorem C06_keywords_whole_words :
+  (forall p k rest, In (p, k) kw_table ->
+     match rest with [] => True | c :: _ => is_alnum_trunc c = false end ->
+     lex_raw (p ++ rest) = Some (k, [], p, rest)) /\
+  (forall p k (r rest : text), In (p, k) kw_table -> r <> [] -> forallb is_alnum_ascii r = true ->
+     match rest with [] => True | c :: _ => is_alnum_trunc c = false end ->
+     lex_raw ((p ++ r) ++ rest) = Some (Ident (p ++ r), [], p ++ r, rest)).
+Proof. exact (conj kw_whole_word kw_prefix_is_ident). Qed.
+Print Assumptions C06_keywords_whole_words.
+
+(* literal values.  `positional b val d` is the value of the digit string d in base b. *)
+Definition positional (b : N) (val : char -> N) (d : text) : N := fold_left (fun a c => a * b + val c) d 0.
+Definition dec_digit (c : char) : N := c - 48.                                     (* '0'..'9' *)
+Definition hex_digit (c : char) : N :=
+  if c <=? 57 then c - 48 else if c <=? 70 then c - 55 else c - 87.                (* '0'..'9' 'A'..'F' 'a'..'f' *)
+
+Lemma positional_snoc b val d c : positional b val (d ++ [c]) = positional b val d * b + val c.
+Proof. unfold positional. now rewrite fold_left_app. Qed.
+
+Theorem C06_literal_values :
+  (* decimal: a non-empty digit string with value < 2^32, not followed by a digit (and not the `0` of `0x`) *)
+  (forall (d rest : text), d <> [] -> forallb is_digit d = true -> positional 10 dec_digit d < 4294967296 ->
+     match rest with [] => True | c :: _ => is_digit c = false /\ ~ (d = [48] /\ c = 120) end ->
+     lex_raw (d ++ rest) = Some (IntT (IntOk (positional 10 dec_digit d)), [], d, rest)) /\
+  (* hexadecimal: `0x` and a non-empty hex digit string with value < 2^32, not followed by a hex digit *)
+  (forall (d rest : text), d <> [] -> forallb is_hex d = true -> positional 16 hex_digit d < 4294967296 ->
+     match rest with [] => True | c :: _ => is_hex c = false end ->
+     lex_raw ((48 :: 120 :: d) ++ rest) = Some (HexT (IntOk (positional 16 hex_digit d)), [], 48 :: 120 :: d, rest)) /\
+  (* character literals: 'c' has the code point of c, '\n' is 10 *)
+  (forall c rest, lex_raw ([39; c; 39] ++ rest) = Some (CharT c, [], [39; c; 39], rest)) /\
+  (forall rest, lex_raw ([39; 92; 110; 39] ++ rest) = Some (CharT 10, [], [39; 92; 110; 39], rest)).
+Proof.
+  exact (conj (fun d rest H1 H2 H3 H4 => lex_raw_int d _ rest H1 H2 eq_refl H3 H4)
+        (conj (fun d rest H1 H2 H3 H4 => lex_raw_hex d _ rest H1 H2 eq_refl H3 H4)
+        (conj lex_raw_char lex_raw_char_nl))).
+Qed.
+Print Assumptions C06_literal_values.
+
+(* comments run to the end of the line (the line feed belongs to the lexeme) or to the end of the text *)
+Theorem C06_comment_extent :
+  (forall (body rest : text), forallb (fun c => negb (c =? 10)) body = true ->
+     lex_raw (47 :: 47 :: body ++ 10 :: rest) = Some (Comment body, [], 47 :: 47 :: body ++ [10], rest)) /\
+  (forall (body : text), forallb (fun c => negb (c =? 10)) body = true ->
+     lex_raw (47 :: 47 :: body) = Some (Comment body, [], 47 :: 47 :: body, [])).
+Proof. exact (conj lex_raw_comment_nl lex_raw_comment_eot). Qed.
+Print Assumptions C06_comment_extent.
+
+(* ---- non-vacuity, evaluated independently of the theorems ---- *)
+Definition tok k a b := {| tk := k; ts := a; te := b; terr := [] |}.
+(* `ifx` is one identifier; `if(` is keyword + parenthesis *)
+Example C06_ex_ifx : lex [105; 102; 120] = Some [tok (Ident [105; 102; 120]) 0 3; tok Eof 3 3].
+Proof. vm_compute. reflexivity. Qed.
+Example C06_ex_if_paren : lex [105; 102; 40] = Some [tok KIf 0 2; tok LParen 2 3; tok Eof 3 3].
+Proof. vm_compute. reflexivity. Qed.
+(* `<=` is one token, `< =` two *)
+Example C06_ex_le : lex [60; 61] = Some [tok LeT 0 2; tok Eof 2 2].
+Proof. vm_compute. reflexivity. Qed.
+Example C06_ex_lt_eq : lex [60; 32; 61] = Some [tok LtT 0 1; tok EqT 2 3; tok Eof 3 3].
+Proof. vm_compute. reflexivity. Qed.
+(* 0x1F = 31, '\n' = 10, 007 = 7 *)
+Example C06_ex_hex : lex [48; 120; 49; 70] = Some [tok (HexT (IntOk 31)) 0 4; tok Eof 4 4].
+Proof. vm_compute. reflexivity. Qed.
+Example C06_ex_char_nl : lex [39; 92; 110; 39] = Some [tok (CharT 10) 0 4; tok Eof 4 4].
+Proof. vm_compute. reflexivity. Qed.
+Example C06_ex_007 : lex [48; 48; 55] = Some [tok (IntT (IntOk 7)) 0 3; tok Eof 3 3].
+Proof. vm_compute. reflexivity. Qed.
+(* `//c` at the end of the text is a comment *)
+Example C06_ex_comment_eot : lex [47; 47; 99] = Some [tok (Comment [99]) 0 3; tok Eof 3 3].
+Proof. vm_compute. reflexivity. Qed.
+(* 4294967296 = 2^32 is an error-carrying Int (not a Lexeme: outside conformance, inside the tiling part) *)
+Example C06_ex_overflow :
+  lex [52; 50; 57; 52; 57; 54; 55; 50; 57; 54]
+  = Some [ {| tk := IntT (IntErr [52; 50; 57; 52; 57; 54; 55; 50; 57; 54]); ts := 0; te := 10;
+              terr := [ {| le_s := 0; le_e := 10; le_m := InvalidIntLit [52; 50; 57; 52; 57; 54; 55; 50; 57; 54] |} ] |};
+           tok Eof 10 10 ].
+Proof. vm_compute. reflexivity. Qed.
+(* the hypotheses of C06_conformance are satisfiable with EMPTY separators, and the instance is what the
+   model computes:  x:=0x1F;//c<LF>if(a<=1)  *)
+Definition ex_ls : list (kind * text) :=
+  [ (Ident [120], [120]); (Assign, [58; 61]); (HexT (IntOk 31), [48; 120; 49; 70]); (Semic, [59]);
+    (Comment [99], [47; 47; 99; 10]); (KIf, [105; 102]); (LParen, [40]); (Ident [97], [97]); (LeT, [60; 61]);
+    (IntT (IntOk 1), [49]); (RParen, [41]) ].
+Definition ex_seps : list text := [[32]; []; []; []; []; []; []; []; []; []; []; [10]].
+Example C06_ex_conformance_hyps :
+  length ex_seps = S (length ex_ls) /\ Forall (fun s => forallb is_ws s = true) ex_seps /\
+  Forall (fun kl => Lexeme (fst kl) (snd kl)) ex_ls /\ SeparatedOK ex_ls ex_seps.
+Proof.
+  split; [reflexivity|]. split; [repeat constructor|]. split.
+  - repeat (apply Forall_cons; [|]); try apply Forall_nil; cbn [fst snd].
+    + now apply (Lx_ident 120 []).
+    + apply Lx_sym. cbn. tauto.
+    + apply (Lx_hex [49; 70] 31); [discriminate | reflexivity | reflexivity | reflexivity].
+    + apply Lx_sym. cbn. tauto.
+    + apply (Lx_comment [99]). reflexivity.
+    + apply Lx_kw. cbn. tauto.
+    + apply Lx_sym. cbn. tauto.
+    + now apply (Lx_ident 97 []).
+    + apply Lx_sym. cbn. tauto.
+    + apply (Lx_int [49] 1); [discriminate | reflexivity | reflexivity | reflexivity].
+    + apply Lx_sym. cbn. tauto.
+  - cbn. repeat split; try discriminate; intros [H _]; discriminate H.
+Qed.
+Example C06_ex_conformance_instance :
+  lex (weave ex_seps (map snd ex_ls)) = Some (place 0 ex_seps ex_ls) /\
+  map tk (place 0 ex_seps ex_ls)
+  = [Ident [120]; Assign; HexT (IntOk 31); Semic; Comment [99]; KIf; LParen; Ident [97]; LeT; IntT (IntOk 1); RParen; Eof].
+Proof. vm_compute. split; reflexivity. Qed.
+(* Delimited is needed: `x` directly followed by `1` is not two lexemes but one identifier *)
+Example C06_ex_not_delimited :
+  ~ Delimited (Ident [120]) [120] [49] /\ lex [120; 49] = Some [tok (Ident [120; 49]) 0 2; tok Eof 2 2].
+Proof. split; [cbn; discriminate | vm_compute; reflexivity]. Qed.
